@@ -197,6 +197,21 @@ class Run:
         if not _contains_quant(cond):
             self.solver.add(cond)
 
+    def try_const(self, expr):
+        """If the path condition (its quantifier-free part) forces the integer `expr` to one value, return that numeral."""
+        e = z3.simplify(expr)
+        if z3.is_int_value(e) or self.spec:
+            return e
+        try:
+            if self.solver.check() != z3.sat:
+                return e
+            v = self.solver.model().eval(e, model_completion=True)
+            if z3.is_int_value(v) and self.solver.check(e != v) == z3.unsat:
+                return v
+        except z3.Z3Exception:
+            pass
+        return e
+
     def feasible(self, cond):
         r = self.solver.check(cond)
         return r != z3.unsat
